@@ -117,7 +117,7 @@ pub fn k_recv(Tracked(k): Tracked<&mut K>, fd: c_int, buf: &mut Vec<u8>, write_p
                     && final(buf)@.subrange(0, write_pos + r) == old(buf)@.subrange(0, write_pos as int) + p.data
             &&& p.data.len() > len ==> r == len    // truncated: rest of the packet lost
         },
-        r == 0 ==> old(k).q[fd].len() == 0 && final(k).q == old(k).q,
+        r == 0 ==> old(k).q[fd].len() == 0 && old(k).q[fd] == Seq::<Packet>::empty() && final(k).q == old(k).q,
         r < 0 ==> final(k).q == old(k).q,
         // a zero-length read does NOT set errno (it stays whatever an earlier call left); a failing BLOCKING read never says "would block"
         r >= 0 ==> final(k).errno == old(k).errno,
@@ -211,4 +211,32 @@ impl UnixError {
     // UnixError::last(): io::Error::last_os_error() - whatever errno holds NOW
     #[verifier::external_body]
     pub fn last_with(Tracked(k): Tracked<&K>) -> (r: UnixError) ensures r == UnixError::Errno(k.errno) { unimplemented!() }
+}
+
+// ---- the receive loop around recv_message: abandoned emissions are skipped ----
+// queue state of the channel after its head emission has been consumed (its dedicated socket, if it has one, drained)
+pub open spec fn after_head(q: Map<c_int, Seq<Packet>>, fd: c_int) -> Map<c_int, Seq<Packet>> {
+    let p = q[fd].first();
+    if p.data.len() == p.hdr->Some_0 { q.insert(fd, q[fd].drop_first()) }
+    else { q.insert(fd, q[fd].drop_first()).insert(p.fds.last(), Seq::<Packet>::empty()) }
+}
+pub open spec fn with_q(k: K, q: Map<c_int, Seq<Packet>>) -> K { K { q: q, ..k } }
+// the first n emissions queued on fd are as U2 writes them (each judged once the ones before it are consumed)
+pub open spec fn heads_ok(k: K, q: Map<c_int, Seq<Packet>>, fd: c_int, n: nat) -> bool decreases n {
+    n == 0 || (q.dom().contains(fd) && head_ok(with_q(k, q), fd) && (q[fd].len() > 0 ==> heads_ok(k, after_head(q, fd), fd, (n - 1) as nat)))
+}
+// state reached from q by consuming n emissions, every one of which was abandoned by its sender (incomplete)
+pub open spec fn skipped(k: K, q: Map<c_int, Seq<Packet>>, fd: c_int, n: nat, q1: Map<c_int, Seq<Packet>>) -> bool decreases n {
+    if n == 0 { q1 == q } else { q[fd].len() > 0 && !head_complete(with_q(k, q), fd) && skipped(k, after_head(q, fd), fd, (n - 1) as nat, q1) }
+}
+pub proof fn lemma_skipped_snoc(k: K, q: Map<c_int, Seq<Packet>>, fd: c_int, n: nat, q1: Map<c_int, Seq<Packet>>)
+    requires skipped(k, q, fd, n, q1), q1[fd].len() > 0, !head_complete(with_q(k, q1), fd)
+    ensures skipped(k, q, fd, n + 1, after_head(q1, fd))
+    decreases n
+{
+    if n == 0 {
+        assert(skipped(k, after_head(q, fd), fd, 0, after_head(q1, fd)));
+    } else {
+        lemma_skipped_snoc(k, after_head(q, fd), fd, (n - 1) as nat, q1);
+    }
 }
